@@ -23,3 +23,4 @@ def rules(ctx):
     S.mutator_release_rules(ctx)
     S.free_verdict_rules(ctx)
     S.survey_residue_rules(ctx)
+    S.leaf_width_rules(ctx)
